@@ -10,8 +10,8 @@ echo "== (1) existing suite WITH the change (failures other than the demo's are 
 cargo test --workspace --no-fail-fast --offline --lib --bins --test feox_migrate_cli 2>&1 | grep -E "^test result|^test .*FAILED" | grep -v "$demo" | head -10
 echo "== (2) demo WITH the change"
 cargo test --offline "$@" 2>&1 | grep -E "^test result|^test .*FAILED" | head -10
-git stash push -q -- $bugfiles
+git apply -R patch.diff
 echo "== (3) demo WITHOUT the change"
 cargo test --offline "$@" 2>&1 | grep -E "^test result|^test .*FAILED" | head -10
-git stash pop -q
+git apply patch.diff
 echo "== restored:"; git diff --stat -- $bugfiles | tail -1
